@@ -152,11 +152,11 @@ Init ==
 (* Ingestion: InnerLocustDB::ingest_efficient *)
 
 \* acquire the wal_size mutex; wait while the accounted size exceeds the limit
-IngestLock(c, sh) ==
+IngestLock(c) ==
     /\ up /\ ing[c].pc = "idle" /\ walLock = "free" /\ walAcct <= MaxWal /\ nreq < MaxReq
     /\ walLock' = c
     /\ nreq' = nreq + 1
-    /\ reqDef' = Append(reqDef, sh)
+    /\ reqDef' = Append(reqDef, {})
     /\ ing' = [ing EXCEPT ![c] = [IdleIng EXCEPT !.pc = "locked", !.req = nreq + 1]]
     /\ UNCHANGED <<up, tabs, buffer, frozen, parts, nextPid, nextOff, colNames, ms, walAcct, fl, pendingFlush, rec, qs, disk, logical, ncrash, broken>>
 
@@ -164,10 +164,9 @@ IngestLock(c, sh) ==
 LoadedNames(t) == NamesIn(MC(t), Content(MC(t)))
 
 \* create missing tables, make sure the name set is loaded, work out catalogue rows, add them to the request
-IngestCatalogue(c) ==
+IngestCatalogue(c, sh) ==
     /\ ing[c].pc = "locked"
     /\ LET r == ing[c].req
-           sh == reqDef[r]
            uts == {ch.t : ch \in sh}
            newTabs == (uts \cup {MC(t) : t \in uts}) \ tabs
            cn1 == [t \in AllT |->
@@ -175,7 +174,7 @@ IngestCatalogue(c) ==
                      ELSE IF t \in uts /\ ~colNames[t].loaded
                           THEN [loaded |-> TRUE, names |-> LoadedNames(t)]
                           ELSE colNames[t]]
-           newCols == [t \in uts |-> ChunkOf(r, t).names \ cn1[t].names]
+           newCols == [t \in uts |-> (CHOOSE ch \in sh : ch.t = t).names \ cn1[t].names]
            mtChunk == IF newTabs = {} THEN {} ELSE {[t |-> MT, n |-> Cardinality(newTabs), names |-> newTabs]}
            mcChunks == {[t |-> MC(t), n |-> Cardinality(newCols[t]), names |-> newCols[t]] : t \in {u \in uts : newCols[u] # {}}}
            full == sh \cup mtChunk \cup mcChunks
@@ -309,14 +308,15 @@ Plan(t) ==
               /\ nextPid' = [nextPid EXCEPT ![t] = @ + 1]
     /\ UNCHANGED <<up, tabs, buffer, frozen, parts, nextOff, colNames, ms, walAcct, walLock, ing, pendingFlush, rec, qs, disk, nreq, reqDef, logical, ncrash>>
 
-BatchingDone ==
-    /\ fl.pc = "batching" /\ fl.todo = {}
-    /\ fl' = [fl EXCEPT !.pc = "persisting"]
-    /\ UNCHANGED <<up, tabs, buffer, frozen, parts, nextPid, nextOff, colNames, ms, walAcct, walLock, ing, pendingFlush, rec, qs, disk, histv>>
+\* the stages of wal_flush follow one another: all tables batched -> new partitions persisted and
+\* registered -> compactions -> catalogue stored -> orphans deleted -> log segments deleted
+PersistPhase == fl.pc = "batching" /\ fl.todo = {}
+CompactPhase == PersistPhase /\ \A p \in fl.newParts : PKey(p) \in fl.inserted
+MetaPhase == CompactPhase /\ \A pl \in fl.plans : pl.st = "done"
 
 \* Storage::persist_partitions -> write_subpartitions: one file per sub-partition key ...
 PersistSub(p, k) ==
-    /\ fl.pc = "persisting" /\ p \in fl.newParts /\ PKey(p) \notin fl.inserted
+    /\ PersistPhase /\ p \in fl.newParts /\ PKey(p) \notin fl.inserted
     /\ [p |-> PKey(p), k |-> k] \notin fl.persisted
     /\ UNCHANGED broken
     /\ dPart' = dPart \cup {[t |-> p.t, id |-> p.id, key |-> k]}
@@ -325,21 +325,16 @@ PersistSub(p, k) ==
 \* ... then MetaStore::insert_partition under the catalogue lock
 KeysPersisted(p) == {x.k : x \in {y \in fl.persisted : y.p = PKey(p)}}
 MsInsert(p) ==
-    /\ fl.pc = "persisting" /\ p \in fl.newParts /\ PKey(p) \notin fl.inserted
+    /\ PersistPhase /\ p \in fl.newParts /\ PKey(p) \notin fl.inserted
     /\ KeysPersisted(p) # {}
     /\ ms' = [ms EXCEPT !.parts = @ \cup {[p EXCEPT !.keys = KeysPersisted(p)]}]
     /\ fl' = [fl EXCEPT !.inserted = @ \cup {PKey(p)}]
     /\ UNCHANGED <<up, tabs, buffer, frozen, parts, nextPid, nextOff, colNames, walAcct, walLock, ing, pendingFlush, rec, qs, disk, histv>>
 
-PersistingDone ==
-    /\ fl.pc = "persisting" /\ \A p \in fl.newParts : PKey(p) \in fl.inserted
-    /\ fl' = [fl EXCEPT !.pc = "compacting"]
-    /\ UNCHANGED <<up, tabs, buffer, frozen, parts, nextPid, nextOff, colNames, ms, walAcct, walLock, ing, pendingFlush, rec, qs, disk, histv>>
-
 \* InnerLocustDB::compact: read (lazily load) the name set ...
 SetPlan(pl, new) == fl' = [fl EXCEPT !.plans = (@ \ {pl}) \cup {new}]
 CompactNames(pl) ==
-    /\ fl.pc = "compacting" /\ pl \in fl.plans /\ pl.st = "planned"
+    /\ CompactPhase /\ pl \in fl.plans /\ pl.st = "planned"
     /\ LET t == pl.t
            cn == IF colNames[t].loaded THEN colNames[t] ELSE [loaded |-> TRUE, names |-> LoadedNames(t)]
        IN /\ colNames' = [colNames EXCEPT ![t] = cn]
@@ -352,7 +347,7 @@ Merged(pl) == LET sq == ByOff(pl.old) IN
      pcols |-> pl.names, keys |-> pl.keys, cold |-> FALSE]
 \* ... build the merged columns, then Table::compact under the partitions write lock
 CompactSwap(pl) ==
-    /\ fl.pc = "compacting" /\ pl \in fl.plans /\ pl.st = "named"
+    /\ CompactPhase /\ pl \in fl.plans /\ pl.st = "named"
     /\ LET cur == {x \in parts[pl.t] : PKey(x) \in {PKey(o) : o \in pl.old}}
            unreadable == {x \in cur : x.cold /\ ~(\E m \in ms.parts : PKey(m) = PKey(x) /\ FilesOf({m}) \subseteq dPart)}
        IN IF Cardinality(cur) # Cardinality(pl.old) THEN Fail("compaction of a partition that is gone")
@@ -363,13 +358,13 @@ CompactSwap(pl) ==
     /\ UNCHANGED <<up, tabs, buffer, frozen, nextPid, nextOff, colNames, ms, walAcct, walLock, ing, pendingFlush, rec, qs, disk, nreq, reqDef, logical, ncrash>>
 \* Storage::prepare_compact: files of the merged partition ...
 CompactPersist(pl, k) ==
-    /\ fl.pc = "compacting" /\ pl \in fl.plans /\ pl.st = "swapped" /\ k \notin pl.keys
+    /\ CompactPhase /\ pl \in fl.plans /\ pl.st = "swapped" /\ k \notin pl.keys
     /\ dPart' = dPart \cup {[t |-> pl.t, id |-> pl.cid, key |-> k]}
     /\ SetPlan(pl, [pl EXCEPT !.keys = @ \cup {k}])
     /\ UNCHANGED <<up, tabs, buffer, frozen, parts, nextPid, nextOff, colNames, ms, walAcct, walLock, ing, pendingFlush, rec, qs, dMeta, dWal, dTmp, histv>>
 \* ... then delete old / insert new in the in-memory catalogue
 CompactMs(pl) ==
-    /\ fl.pc = "compacting" /\ pl \in fl.plans /\ pl.st = "swapped" /\ pl.keys # {}
+    /\ CompactPhase /\ pl \in fl.plans /\ pl.st = "swapped" /\ pl.keys # {}
     /\ LET oldIds == {PKey(p) : p \in pl.old}
            oldMs == {p \in ms.parts : PKey(p) \in oldIds}
        IN /\ IF Cardinality(oldMs) # Cardinality(pl.old) THEN Fail("compacted partition unknown to the catalogue") ELSE UNCHANGED broken
@@ -382,14 +377,14 @@ CompactMs(pl) ==
 MetaTmp == [kind |-> "meta", earliest |-> fl.hi, parts |-> ms.parts]
 PersistMeta ==
     /\ ~FsSteps
-    /\ fl.pc = "compacting" /\ \A pl \in fl.plans : pl.st = "done"
+    /\ MetaPhase
     /\ ms' = [ms EXCEPT !.earliest = IF "CursorIsNextWal" \in Dev THEN ms.next ELSE fl.hi]
     /\ dMeta' = [exists |-> TRUE, earliest |-> ms'.earliest, parts |-> ms.parts]
-    /\ fl' = [fl EXCEPT !.pc = "meta"]
+    /\ fl' = [fl EXCEPT !.pc = "meta", !.todo = fl.lo..(fl.hi - 1)]
     /\ UNCHANGED <<up, tabs, buffer, frozen, parts, nextPid, nextOff, colNames, walAcct, walLock, ing, pendingFlush, rec, qs, dWal, dPart, dTmp, histv>>
 MetaAdvance ==
     /\ FsSteps
-    /\ fl.pc = "compacting" /\ \A pl \in fl.plans : pl.st = "done"
+    /\ MetaPhase
     /\ ms' = [ms EXCEPT !.earliest = fl.hi]
     /\ dTmp' = {x \in dTmp : x.f.kind # "meta"} \cup {[f |-> MetaTmp, st |-> "empty"]}   \* File::create truncates a stale temp file
     /\ fl' = [fl EXCEPT !.pc = "metaCreated"]
@@ -406,7 +401,7 @@ MetaRename ==
     /\ \E x \in {y \in dTmp : y.f.kind = "meta"} :
          /\ dTmp' = dTmp \ {x}
          /\ dMeta' = [exists |-> TRUE, earliest |-> x.f.earliest, parts |-> x.f.parts]
-    /\ fl' = [fl EXCEPT !.pc = "meta"]
+    /\ fl' = [fl EXCEPT !.pc = "meta", !.todo = fl.lo..(fl.hi - 1)]
     /\ UNCHANGED <<up, tabs, buffer, frozen, parts, nextPid, nextOff, colNames, ms, walAcct, walLock, ing, pendingFlush, rec, qs, dWal, dPart, histv>>
 
 \* Storage::delete_orphaned_partitions
@@ -416,20 +411,16 @@ DeleteOrphan(f) ==
     /\ dPart' = dPart \ {f}
     /\ fl' = [fl EXCEPT !.toDelete = @ \ {f}]
     /\ UNCHANGED <<up, tabs, buffer, frozen, parts, nextPid, nextOff, colNames, ms, walAcct, walLock, ing, pendingFlush, rec, qs, dMeta, dWal, dTmp, nreq, reqDef, logical, ncrash>>
-OrphansDone ==
-    /\ fl.pc = "meta" /\ fl.toDelete = {}
-    /\ fl' = [fl EXCEPT !.pc = "walDelete", !.todo = fl.lo..(fl.hi - 1)]
-    /\ UNCHANGED <<up, tabs, buffer, frozen, parts, nextPid, nextOff, colNames, ms, walAcct, walLock, ing, pendingFlush, rec, qs, disk, histv>>
 \* Storage::delete_wal_segments
 DeleteWal(id) ==
-    /\ fl.pc = "walDelete" /\ id \in fl.todo
+    /\ fl.pc = "meta" /\ fl.toDelete = {} /\ id \in fl.todo
     /\ IF ~\E w \in dWal : w.id = id THEN Fail("deleting a log segment that does not exist") ELSE UNCHANGED broken
     /\ dWal' = {w \in dWal : w.id # id}
     /\ fl' = [fl EXCEPT !.todo = @ \ {id}]
     /\ UNCHANGED <<up, tabs, buffer, frozen, parts, nextPid, nextOff, colNames, ms, walAcct, walLock, ing, pendingFlush, rec, qs, dMeta, dPart, dTmp, nreq, reqDef, logical, ncrash>>
 \* back in enforce_wal_limit: answer the force_flush callers taken before this flush
 FlushDone ==
-    /\ fl.pc = "walDelete" /\ fl.todo = {}
+    /\ fl.pc = "meta" /\ fl.toDelete = {} /\ fl.todo = {}
     /\ fl' = IdleFl
     /\ UNCHANGED <<up, tabs, buffer, frozen, parts, nextPid, nextOff, colNames, ms, walAcct, walLock, ing, pendingFlush, rec, qs, disk, histv>>
 
@@ -572,18 +563,18 @@ Evict(t, id) ==
 
 -----------------------------------------------------------------------------
 IngestNext == \E c \in Clients :
-    \/ \E sh \in Shapes : IngestLock(c, sh)
-    \/ IngestCatalogue(c) \/ WalAssign(c) \/ WalStore(c) \/ WalTmpCreate(c) \/ WalTmpWrite(c) \/ WalRename(c)
+    \/ IngestLock(c)
+    \/ (\E sh \in Shapes : IngestCatalogue(c, sh)) \/ WalAssign(c) \/ WalStore(c) \/ WalTmpCreate(c) \/ WalTmpWrite(c) \/ WalRename(c)
     \/ \E t \in AllT : ApplyTable(c, t)
     \/ IngestAck(c)
 FlushNext ==
     \/ FlushTrigger \/ FlushLock \/ (\E t \in AllT : FreezeTable(t)) \/ FlushFreeze
-    \/ (\E t \in AllT : Batch(t) \/ Plan(t)) \/ BatchingDone
-    \/ (\E p \in fl.newParts : MsInsert(p) \/ \E k \in SubKeys : PersistSub(p, k)) \/ PersistingDone
+    \/ (\E t \in AllT : Batch(t) \/ Plan(t))
+    \/ (\E p \in fl.newParts : MsInsert(p) \/ \E k \in SubKeys : PersistSub(p, k))
     \/ (\E pl \in fl.plans : CompactNames(pl) \/ CompactSwap(pl) \/ CompactMs(pl) \/ \E k \in SubKeys : CompactPersist(pl, k))
     \/ PersistMeta \/ MetaAdvance \/ MetaWrite \/ MetaRename
-    \/ (\E f \in fl.toDelete : DeleteOrphan(f)) \/ OrphansDone
-    \/ (\E id \in fl.todo : fl.pc = "walDelete" /\ DeleteWal(id)) \/ FlushDone
+    \/ (\E f \in fl.toDelete : DeleteOrphan(f))
+    \/ (\E id \in fl.todo : fl.pc = "meta" /\ DeleteWal(id)) \/ FlushDone
 QueryNext == \E q \in QClients :
     \/ \E t \in AllT : QuerySnapshot(q, t)
     \/ (\E p \in qs[q].todo : QueryRead(q, p)) \/ QueryDone(q)
